@@ -2,6 +2,8 @@ import TucanProofs.Lemmas.Totality
 import TucanProofs.Lemmas.RoundTripPipeline
 import TucanProofs.Examples
 import TucanProofs.Lemmas.FilesMol
+import TucanProofs.Lemmas.FilesIdx
+import TucanProofs.Lemmas.LayoutString
 /-!
 # C15 — the pipeline completes for every non-empty molecule regardless of size or shape  (PARTIAL)
 
@@ -39,7 +41,10 @@ theorem C15_canonicalize_total (order : Graph → List Nat) (g : Graph) (hw : g.
   canonicalize_total order g hw hs hne hattrs
 
 /-- the refinement loop needs at most `n` rounds for `n` atoms: its depth is linear in the number of atoms, and
-the fuel `n + 1` the model gives it is never exhausted -/
+the fuel `n + 1` the model gives it is never exhausted.  The hypothesis `Dense g` is the state the loop is entered
+in: every atom carries a class and the classes are exactly `0 … k-1` — what the first partition step
+(`partition_molecule_by_attribute(·, INVARIANT_CODE)`) establishes for every non-empty graph; `C15_canonicalize_total`
+and `C13_rounds_bounded` are the statements without that hypothesis, for the loop as `canonicalize_molecule` runs it. -/
 theorem C15_refinement_terminates (g : Graph) (hw : g.WF) (hs : g.Simple) (hd : Dense g) (hne : g.labels ≠ []) :
     ∃ r n, refinePartitions g = .ok (r, n) ∧ n ≤ g.numberOfNodes :=
   refinePartitions_ok copySpec mapAttrsSpec g hw hs hd hne
@@ -62,11 +67,37 @@ example : exGraph.WF ∧ exGraph.Simple ∧ exGraph.labels ≠ [] ∧
   · exact ⟨exAtomC13, rfl, rfl, rfl⟩
   · exact ⟨exAtomC, rfl, rfl, rfl⟩
 
-/-- **Every conformant molfile with at least one atom gets a string**: the model pipeline returns on the graph
-either reader returns for it, for every oracle that returns permutations. -/
+/-- **Every graph of a conformant molecule with at least one atom gets a string**: the model pipeline returns on a
+graph `g` of a molecule `m` a molfile can state within the CTfile specification (`IsGraphOf g m c`: what either
+reader returns for a file stating `m` — `C06_v3000_file_any_indices`, `C06_readsAs_graph_of`; the statement with
+the file's text inside is `C15_v3000_text_to_string`), for every oracle that returns permutations.  The molecule
+domain (`Mol.Ok`) has no star atoms, no bond stated twice and no `D`/`T` with an explicit mass. -/
 theorem C15_molfile_pipeline_total (order : Graph → List Nat) (hperm : ∀ r : Graph, r.WF → (order r).Perm r.labels)
     (g : Graph) (m : Mol) (c : List (Str × Str × Str)) (hc : c.length = m.atoms.length)
     (hm : m.Conformant) (hne : m.atoms ≠ []) (hg : IsGraphOf g m c) : ∃ s, tucanOf order g = .ok s :=
   isGraphOf_pipeline_total order hperm g m c hc hm hne hg
+
+/-- **From the text of a conformant V3000 file to its string, end to end.**  A text that consists of lines with
+one of the three terminators (`IsTextOf`), whose lines are a V3000 connection table (`IsV3000File`: header, counts
+line, atom block with any pairwise distinct indices in any order, bond block, `M  END`, anything after it) that
+states a conformant molecule `m` with at least one atom (`V3StatesIdx`): the reader returns a graph, the pipeline
+returns a string on it, that string is a sentence of the grammar in canonical layout, and parsing it gives the
+graph back up to a renaming of its atoms. -/
+theorem C15_v3000_text_to_string (O : CanonOracle) (m : Mol) (hm : m.Conformant) (hne : m.atoms ≠ [])
+    (hsize : (natRepr (m.atoms.length + 1)).length ≤ intMaxStrDigits)
+    (idx : List Int) (coords : List (Str × Str × Str))
+    (text : Str) (lines : List Str) (atoms : List AtomEntry) (bonds : List BondEntry)
+    (ht : IsTextOf text lines) (f : IsV3000File lines atoms bonds)
+    (hver : ∀ l3, lines[3]? = some l3 → EndsInWord l3 (cs "V3000"))
+    (h : V3StatesIdx m idx coords atoms bonds) :
+    ∃ g s, graphFromMolfileText text = .ok g ∧ tucanOf O.order g = .ok s ∧
+      (∃ toks ast, lex s = some toks ∧ Sentence toks ast ∧ ast.Canonical) ∧
+      (∃ H τ, graphFromTucan s = .ok H ∧ Iso SameIdent τ g H) := by
+  obtain ⟨g, hread, hg⟩ := v3000_text_reads_graph_of m hm.ok idx coords text lines atoms bonds ht f hver h
+  have hc := h.nAtoms.2
+  obtain ⟨s, hs⟩ := isGraphOf_pipeline_total O.order O.perm g m coords hc hm hne hg
+  have hmol := isGraphOf_molAtoms g m coords hc hm hg
+  exact ⟨g, s, hread, hs, emitted_layout O.order O.perm g hg.wf hg.simple hmol s hs,
+    (isGraphOf_string_is_sentence O.order O.perm g m coords hc hm hg hsize s hs).2⟩
 
 end Tucan
